@@ -168,11 +168,10 @@ func Modf(f float64) (float64, float64) {
 	if f == posInf || f == negInf {
 		return f, nan
 	}
-	if 1/f == negInf {
-		return f, f
-	}
 	frac := Mod(f, 1)
-	return f - frac, frac
+	// f - frac is exact; for |f| < 1 it is f - f = +0, but the integer part
+	// carries the sign of f (upstream returns -0 for -1 < f <= -0).
+	return Copysign(f-frac, f), frac
 }
 
 func NaN() float64 {
